@@ -802,6 +802,8 @@ func exec(op string) (res string) {
 		return execHs(w)
 	case "sout":
 		return execSout(w)
+	case "bout":
+		return execBout(w)
 	case "enc":
 		h := parseReq(&toks{w: w, i: 1})
 		frame, outcome := buildListedOrder(h, nil)
@@ -1150,6 +1152,15 @@ func (g *gen) emit(h *hreq, class string) {
 		class += "/" + outcome
 	}
 	g.out.Case("enc "+line, ans, "enc/"+class, true)
+	// sent or refused, judged by the specification (every request kind x version x the refused kinds)
+	if !strings.HasPrefix(outcome, "crash:") && outcome != "rejected:toobig" && len(frame) <= 20000 {
+		o := "refused"
+		if outcome == "" {
+			o = vh.Hex(frame)
+		}
+		g.out.Case("bout "+o+" "+line, outcomeClaim(h, outcome == ""),
+			fmt.Sprintf("bout/%s/v%d/%s/%s", h.kind, h.v, map[bool]string{true: "sent", false: "refused"}[outcome == ""], outcomeClaim(h, outcome == "")), true)
+	}
 	if outcome == "" && inRange(h) {
 		verdict := "inexpressible"
 		if expressible(h) {
